@@ -59,6 +59,7 @@ func main() {
 	p, err := an.Load(*repo, false, 19)
 	if err == nil {
 		rules.ResolveAnchors(p)
+		rules.ResolveAuxIndexes(p)
 	}
 	exit := 0
 	if err != nil {
